@@ -184,10 +184,13 @@ func (g *FuncGen) evAppend(c *ast.CallExpr, st *State) Val {
 	cur := base.T
 	for _, a := range c.Args[1:] {
 		v := g.ev(a, st)
-		cur = fmt.Sprintf("(mkseq (+ (slen %s) 1) (store (selems %s) (slen %s) %s))", cur, cur, cur, v.T)
+		r := g.fresh("app", base.S)
+		g.emit(fmt.Sprintf("(assert (= %s (mkseq (+ (slen %s) 1) (store (selems %s) (slen %s) %s))))", r, cur, cur, cur, v.T))
+		// pre-image: every old element is still there (triggered by the old sequence's element terms)
+		g.emit(fmt.Sprintf("(assert (forall ((k Int)) (! (=> (and (<= 0 k) (< k (slen %s))) (= (select (selems %s) k) (select (selems %s) k))) :pattern ((select (selems %s) k)))))", cur, r, cur, cur))
+		cur = r
 	}
-	r := Val{cur, ty, base.S}
-	return r
+	return Val{cur, ty, base.S}
 }
 
 func (g *FuncGen) seqConcat(st *State, a, b Val, ty types.Type) Val {
